@@ -742,7 +742,8 @@ export class NeverRuntype extends BaseRuntype {
     return "never";
   }
   schema(_ctx: SchemaContext): JSONSchema7 {
-    return annotateSchema(this.metadata, { anyOf: [] });
+    // `anyOf: []` is not a well-formed schema (anyOf needs at least one member); `not: {}` accepts nothing
+    return annotateSchema(this.metadata, { not: {} });
   }
   validate(_ctx: ValidateContext, _input: unknown): boolean {
     return false;
@@ -1243,7 +1244,8 @@ export class TupleRuntype extends BaseRuntype {
     popPath(ctx);
     return annotateSchema(this.metadata, {
       type: "array",
-      prefixItems,
+      // an empty `prefixItems` is not a well-formed schema
+      ...(prefixItems.length > 0 ? { prefixItems } : {}),
       items,
       minItems: this.prefix.length,
     } as any);
